@@ -258,6 +258,10 @@ func (x *Exec) callSite(fr *Frame, st *State, what string, callee *ssa.Function,
 		cenv := mkEnv()
 		g, err := cenv.Bool(c.E)
 		if err != nil {
+			if x.staleClause(err) {
+				x.staleObligation(fmt.Sprintf("assert@%s.c%d", tag, ci+1), pos, x.lab(c.Labels), c.Text, st.PC, err)
+				continue
+			}
 			return engineErr("%s: call %s assert %q: %v", x.topName, tag, c.Text, err)
 		}
 		x.u.AddObligation(x.topName, fmt.Sprintf("assert@%s.c%d", tag, ci+1), pos, x.lab(c.Labels), c.Text, st.PC, g)
@@ -623,6 +627,18 @@ func (x *Exec) callContract(fr *Frame, st *State, fc *FuncContract, callee *ssa.
 			post.names[fmt.Sprintf("result%d", i)] = post.names[n]
 			off += k
 		}
+	}
+	if fc.Pkg == "trusted" && na.S != pre.Alloc.S {
+		// a function outside the repository allocates no object of a struct type other than what it returns: every
+		// other object created during the call is not a struct object (dyn 0)
+		var excl []Term
+		for i, sl := range u.Layout(res.T) {
+			if sl.Ref && i < len(res.S) {
+				excl = append(excl, Neq(Term{"qr", SInt}, res.S[i]))
+			}
+		}
+		body := Implies(And(append(excl, Gt(App("root", SInt, Term{"qr", SInt}), pre.Alloc), Le(App("root", SInt, Term{"qr", SInt}), na))...), Eq(App("dyn", SInt, Term{"qr", SInt}), IntLit(0)))
+		u.Assume(Term{fmt.Sprintf("(forall ((qr Int)) (! %s :pattern ((dyn qr))))", body.S), SBool})
 	}
 	if err := post.bindLetsOld(fc, env); err != nil {
 		return Val{}, engineErr("call %s: %v", fc.Key, err)
